@@ -513,6 +513,7 @@ fn run_line(line: &str) -> Option<String> {
         }
         "qlatency" if f.len() == 2 => Some(format!("{} => {}", line, run_latency(f[1].parse().unwrap_or(1)))),
         "qdroprace" if f.len() == 2 => Some(format!("{} => {}", line, run_droprace(f[1].parse().unwrap_or(1)))),
+        "qdeep" if f.len() == 2 => Some(format!("{} => {}", line, run_deep(f[1].parse().unwrap_or(1)))),
         "qemitdrop" if f.len() == 2 => Some(format!("{} => {}", line, run_emitdrop(f[1].parse().unwrap_or(1)))),
         "qstress" if f.len() == 4 => {
             let r = run_stress(parse_cap(f[1]), f[2].parse().unwrap_or(2), f[3].parse().unwrap_or(10));
@@ -729,6 +730,33 @@ fn run_droprace(rounds: usize) -> String {
         }
     }
     "ok".to_string()
+}
+
+/// an unbounded queue accepts every metric: the worker is parked and `n` metrics are queued behind it
+fn run_deep(n: usize) -> String {
+    let (etx, erx) = unbounded();
+    let (gtx, grx) = unbounded();
+    let q = QueuingMetricSink::from(Gated { ev: etx, go: grx });
+    if q.emit("park").is_err() {
+        return "first-emit-refused".to_string();
+    }
+    let _ = erx.recv_timeout(Duration::from_millis(2000));
+    let mut refused_at = None;
+    for i in 0..n {
+        if q.emit("m").is_err() {
+            refused_at = Some(i);
+            break;
+        }
+    }
+    let queued = q.queued();
+    // shut down without draining a million gate openings one by one: closing the gate channel makes every
+    // further wrapped-sink call return at once
+    drop(gtx);
+    drop(q);
+    match refused_at {
+        Some(i) => format!("unbounded-queue-refused-metric-{}-with-{}-queued", i, queued),
+        None => "ok".to_string(),
+    }
 }
 
 /// the worker is held inside the wrapped sink with the first metric (queue empty), released, and after a
@@ -1136,6 +1164,35 @@ fn main() {
             writeln!(out, "{}", l).unwrap();
             extra += 1;
         }
+    }
+    if SHARD_K.load(Ordering::Relaxed) == 2 % SHARD_N.load(Ordering::Relaxed) {
+        // an unbounded queue a million deep
+        if let Some(l) = run_line(&format!("qdeep {}", if tier == "quick" { 1_100_000 } else { 5_000_000 })) {
+            writeln!(out, "{}", l).unwrap();
+            extra += 1;
+        }
+        // a long run of failures with a handler configured: the handler sees every one
+        let storm = if tier == "quick" { 150 } else { 3000 };
+        let mut ops: Vec<String> = Vec::new();
+        for i in 0..storm {
+            ops.push(format!("e0:{}", mname(0, i)));
+            ops.push(format!("x{}", if i % 7 == 3 { 305 } else { i % 32 }));
+        }
+        ops.push("s0".to_string());
+        emit_case_here(&mut out, None, true, &ops, &mut extra);
+        // metrics longer than any datagram: the queuing sink does not look at them
+        for len in [65507usize, 65508, 200000] {
+            let big = hex("L".repeat(len).as_bytes());
+            let ops: Vec<String> = vec![format!("e0:{}", big), "k".into(), format!("e0:{}", big), "x3".into(), "s0".into()];
+            emit_case_here(&mut out, Some(2), true, &ops, &mut extra);
+        }
+    }
+    // time passing while metrics are queued behind a slow wrapped sink: they are still delivered
+    if SHARD_K.load(Ordering::Relaxed) == 3 % SHARD_N.load(Ordering::Relaxed) {
+        let idle = if tier == "quick" { 5600 } else { 61000 };
+        let ops: Vec<String> = vec![format!("e0:{}", mname(0, 0)), format!("e0:{}", mname(0, 1)), format!("e0:{}", mname(0, 2)), format!("w{}", idle),
+            "k".into(), "k".into(), "s0".into(), "k".into(), "s0".into()];
+        emit_case_here(&mut out, Some(4), false, &ops, &mut extra);
     }
     // idle periods between metrics (long enough for a 5 s / 30 s idle time-out in the worker to fire); on the
     // last shard, which has the least other work
